@@ -155,7 +155,7 @@ func families(thorough bool) []family {
 		{K: "CancelStake", A: 1, B: 0},
 		{K: "CancelStake", A: 2, B: 0}, // stranger (or owner, depending on who created entry 0)
 		{K: "CancelStake", A: 2, B: 1},
-		{K: "CancelStake", A: 1, B: 7}, // unknown id
+		{K: "CancelStake", A: 1, B: 7},           // unknown id
 		{K: "Call", S: "stake-qsr", A: 1, V: 10}, // deposit attempt in the wrong token
 		{K: "Call", S: "stake-collect", A: 1},
 	}}
